@@ -191,6 +191,30 @@ def rule_local_macros(text, macros):
     return rewrite(text, finder)
 
 
+def rule_task_local_get(text):
+    """R6b: `CURRENT_ACTOR.try_with(|id| *id)` (copy the task-local out) -> vx_task_local_get(w)"""
+    def finder(c):
+        for k in range(len(c)):
+            if c.seq(k, "CURRENT_ACTOR", ".", "try_with", "("):
+                cl = c.close(k + 3)
+                inner = norm(c.slice(k + 4, cl))
+                if not re.match(r"^\|(\w+)\|\*\1$", inner.replace(" ", "")):
+                    raise Unsupported("CURRENT_ACTOR.try_with with a closure other than |id| *id")
+                return (c.pos(k), c.end(cl), "vx_task_local_get(w)")
+        return None
+    return rewrite(text, finder)
+
+
+def rule_for_underscore(text):
+    """`for _ in a..b` -> `for _vx_i in a..b` (Verus wants a named loop variable for invariants)"""
+    def finder(c):
+        for k in range(len(c)):
+            if c.seq(k, "for", "_", "in"):
+                return (c.pos(k + 1), c.end(k + 1), "_vx_i")
+        return None
+    return rewrite(text, finder)
+
+
 def rule_task_local_scope(text):
     """R6: CURRENT_ACTOR.scope(id, E)[.await]  ->  { w.scope_enter(id); let __r = E; w.scope_exit(); __r }"""
     def finder(c):
@@ -437,7 +461,7 @@ def rule_option_map(text):
     return rewrite(text, finder)
 
 
-def rule_panics(text):
+def rule_panics(text, no_panic=False):
     """panic!(..) -> vx_panic_site(w);  assert!(c, ..) -> if !(c) { vx_panic_site(w) };
     X.lock().unwrap() -> vx_unwrap_lock(X.lock(), w)"""
     def finder(c):
@@ -445,15 +469,17 @@ def rule_panics(text):
             if c.kind(k) == "id" and c.t(k + 1) == "!" and c.t(k + 2) in OPEN and c.t(k - 1) != "::":
                 cl = c.close(k + 2)
                 if c.t(k) in ("panic", "unreachable", "unimplemented", "todo"):
-                    return (c.pos(k), c.end(cl), "vx_panic_site(w)")
+                    return (c.pos(k), c.end(cl), "vx_forbidden_panic(w)" if no_panic else "vx_panic_site(w)")
                 if c.t(k) in ("assert", "debug_assert"):
                     args = split_args(c, k + 2)
                     cond = c.slice(*args[0]).strip()
-                    return (c.pos(k), c.end(cl), "if !(%s) { vx_panic_site(w) }" % cond)
+                    return (c.pos(k), c.end(cl), "if !(%s) { %s(w) }" % (cond, "vx_forbidden_panic" if no_panic else "vx_panic_site"))
             if c.seq(k, ".", "lock", "(", ")", ".", "unwrap", "(", ")"):
                 rs = _method_call_receiver_start(c, k)
                 recv = c.text[c.pos(rs):c.pos(k)].strip()
-                return (c.pos(rs), c.end(k + 7), "vx_unwrap_lock(%s.lock(), w)" % recv)
+                return (c.pos(rs), c.end(k + 7), "%s(%s.lock(), w)" % ("vx_unwrap_lock_nopanic" if no_panic else "vx_unwrap_lock", recv))
+            if no_panic and c.seq(k, ".", "unwrap", "(", ")"):
+                raise Unsupported("unwrap() inside a Drop body that must not panic: no rule")
         return None
     return rewrite(text, finder)
 
@@ -515,6 +541,9 @@ def rule_world_calls(text, effectful):
             if c.t(k + 1) == "!":
                 continue
             cl = c.close(j)
+            if c.t(k) in ("get", "set") and c.t(k - 1) == "." and not (
+                    (c.t(k) == "get" and cl == j + 1) or (c.t(k) == "set" and "vx_static__" in c.text[max(0, c.pos(k) - 120):c.pos(k)])):
+                continue   # HashMap::get(&k) etc.: only OnceLock::get() / static.set(v) are effectful
             # already threaded?
             if c.t(cl - 1) == "w" and c.t(cl - 2) in (",", "("):
                 continue
